@@ -973,10 +973,10 @@ var pathFamily = func() []string {
 		// absolute and relative, valid
 		"/t", "/d/t", "/d/e/t", "/nofile", "t", "../t", "../../t", "e/t", "nofile", "../nofile",
 		// leaving the root
-		"../../../t", "../../../../t", "../../..",
+		"../../../t", "../../../../t",
 		// '..' at the start after the slash, in the middle, at the end
 		"/../t", "/../../t", "/..", "/../d/t", "d/../t", "/d/../t", "../d/../t", "/d/e/../../../t", "/d/../../t", "t/../../../../t",
-		"d/..", "/d/..", "t/..", "..", "../..", "../", "../../", "/../", "...", "/.../t", "..t", "/..t", "t..", "../..t",
+		"d/..", "/d/..", "t/..", "..", "../..", "../../..", "../", "../../", "/../", "...", "/.../t", "..t", "/..t", "t..", "../..t",
 		// empty elements, trailing slash
 		"//t", "d//t", "/d//t", "t//", "//", "///t", "t/", "/t/", "d/", "/", "../t/", "/d/e/",
 		// '.' elements
@@ -1497,10 +1497,10 @@ func run(c *hx.Ctx) error {
 	if err := runPaths(c); err != nil {
 		return err
 	}
-	if err := runSites(c); err != nil {
+	if err := runBuilds(c); err != nil {
 		return err
 	}
-	if err := runBuilds(c); err != nil {
+	if err := runSites(c); err != nil {
 		return err
 	}
 	return nil
